@@ -24,7 +24,7 @@ for name in $NAMES; do
   fi
   line="$name [$prop]:"
   for id in $ids; do
-    out=$($SW/target/release/bpsim $id quick 2>&1); rc=$?
+    out=$(timeout 1500 $SW/target/release/bpsim $id quick 2>&1); rc=$?
     if [ $rc -eq 1 ]; then line="$line $id=CAUGHT"; elif [ $rc -eq 0 ]; then line="$line $id=miss"; else line="$line $id=ERR$rc"; fi
   done
   echo "$line" >> "$OUT"
